@@ -83,6 +83,11 @@ def main():
                     shutil.copy(os.path.join(root, fn), os.path.join(dst, f"caught-replay-{n}.json"))
                     n += 1
         old_meta = os.path.join(dst, "meta.json")
+        if os.path.exists(old_meta):
+            for k in ("needs", "ran"):
+                v = json.load(open(old_meta)).get(k)
+                if v:
+                    meta[k] = v
         if a.skip_suite and os.path.exists(old_meta):
             prev = json.load(open(old_meta))
             if "suite_with_patch" in prev:
